@@ -299,6 +299,8 @@ def check_dict_literal(ctx, repo, rid):
                 q = getattr(q, "_parent", None)
             return isinstance(q, ast.Assert)
         uses = [u for u in uses if not _harmless(u)]
+        if dvar is None and not isinstance(st, ast.stmt):
+            uses = [b]                   # the dictionary is built right where it is handed on
         ok_all = bool(uses)
         for u in uses:
             p = u._parent
